@@ -224,6 +224,9 @@ func (obj *SparseIntVector) Slice(i, j int) Vector {
   return obj.SLICE(i, j)
 }
 func (obj *SparseIntVector) Swap(i, j int) {
+  if i < 0 || j < 0 || i >= obj.n || j >= obj.n {
+    panic("index out of bounds")
+  }
   obj.values[i], obj.values[j] = obj.values[j], obj.values[i]
 }
 func (obj *SparseIntVector) AppendScalar(scalars ...Scalar) Vector {
